@@ -907,8 +907,11 @@ def body(ctx):
         meth = "jacobian" if op == "jac" else "forward"
         if status == "err":
             impl = "err " + payload
-            ctx.count((req,), False, f"{cls}/{op}/err:{payload}")
-            if rep != impl:
+            # the error KIND is compared when the ValueError's text is one the harness can classify; a reworded message
+            # ("other:...") is still a ValueError: then only "the model rejects this input too" is compared
+            unclassified = payload.startswith("other:")
+            ctx.count((req,), False, f"{cls}/{op}/err:" + ("unclassified-ValueError" if unclassified else payload))
+            if (not rep.startswith("err ")) if unclassified else (rep != impl):
                 ctx.disagree(f"{cls}.{op}: implementation and model differ (error handling)",
                              {"request": case, "impl": impl, "model": rep})
             continue
